@@ -9,7 +9,7 @@ func init() {
 			"each pool model's state-mutating swap returns exactly what its pure calculation returned for the same arguments and applies exactly those coins to the reserves (sibling agreement).",
 		NotCovered:  []string{"agreement with the constant-weighted-product formula to powPrecision", "monotonicity of the stableswap invariant", "value conservation over sequences (iterative series and binary search)"},
 		Assumptions: []string{"osmomath.Pow / binary search accuracy (C13)"},
-		MinObl:      51,
+		MinObl:      54,
 		Run:         runC04,
 	})
 }
@@ -35,7 +35,7 @@ func runC04(c *rules.Ctx) {
 	c.Returns(CF+"MaximalExactRatioJoin", 0, "each(alt(zero:Int(), local:numShares(), sdkmath.LegacyDec.TruncateInt(sdkmath.LegacyDec.MulInt(_, gammtypes.CFMMPoolI.GetTotalShares(p)))))", "proportional join: shares are truncated", "")
 	c.RoundRegion(CF+"MaximalExactRatioJoin", "", "DOWN,UP", nil, 2, "proportional join: the share ratio is a floor division and the shares are truncated; only the used amounts are rounded up — no half-even operation")
 	c.CallArg(CF+"MaximalExactRatioJoin", "sdkmath.LegacyDec.QuoInt", 1, "sdk.Coins.AmountOfNoDenomValidation(gammtypes.CFMMPoolI.GetTotalPoolLiquidity(p,ctx), elem(tokensIn).Denom)", "the share ratio of a coin is its amount floor-divided by the pool's reserve of the same denom")
-	c.HasCall(CF+"MaximalExactRatioJoin", "sdkmath.Int.Sub", []string{"elem(tokensIn).Amount", "sdkmath.LegacyDec.TruncateInt(sdkmath.LegacyDec.Ceil(_))"}, false, "proportional join: the amount used of each coin is ceiled (the remainder returned is rounded down)", "")
+	cfmmUsedAmountRules(c)
 	// ---- stableswap solver directions
 	const A = "x/gamm/pool-models/stableswap.Pool."
 	c.CallArg(A+"calcOutAmtGivenIn", "stableswap.Pool.scaledSortedPoolReserves", 3, "2", "out-given-in: reserves are scaled rounding down")
@@ -78,6 +78,11 @@ func runC04(c *rules.Ctx) {
 	// ---- keeper side of the all-asset join (shared with C02): what is minted is what the pool model credited
 	c.PairedArgN("x/gamm/keeper.Keeper.JoinPoolNoSwap", "gammtypes.CFMMPoolI.JoinPoolNoSwap", "gammkeeper.Keeper.applyJoinPoolStateChange", "all-asset join: shares minted = shares the pool model returned; coins moved = coins given to it")
 	gammStateChangeCheckedRules(c)
+	// ---- creation-time validation covers every asset
+	const VA = "x/gamm/pool-models/balancer.validateUserSpecifiedPoolAssets"
+	c.ForEach(VA, "balancer.ValidateUserSpecifiedWeight", "assets", "the weight bound is checked for every asset of a new pool (first to last)", false)
+	c.CallArg(VA, "balancer.ValidateUserSpecifiedWeight", 0, "elem(assets).Weight", "…on that asset's own weight")
+	c.LoopOnlyFailExits(VA, "the validation loop is left early only by failing")
 	// ---- stableswap joins: one asset or all assets, nothing in between
 	const SJ2 = S + "joinPoolSharesInternal"
 	c.FailsWhen(SJ2, "ne(len(tokensIn), stableswap.Pool.NumAssets(p))", "a multi-asset stableswap join must supply every pool asset (a proper subset would be credited proportional shares for assets it never provided)", rules.GuardOpt{Conditional: true, Before: "cfmm_common.MaximalExactRatioJoin"})
